@@ -708,6 +708,12 @@ def gen_paths(rng):
         text = "".join(gen_docs.to_yaml(doc_for(rng, sets=False),
                                         start=True)
                        for _ in range(ndocs))
+        if rng.random() < 0.2:
+            # degenerate documents inside the stream: nothing but "---",
+            # an explicit null, a lone scalar
+            extra = rng.choice(["---\n", "--- null\n", "--- just a scalar\n",
+                                "--- 1\n"])
+            text = extra + text if rng.random() < 0.6 else text + extra
         if rng.random() < 0.1:
             text += gen_args.INVALID_DOCS[rng.choice(
                 sorted(gen_args.INVALID_DOCS))]
